@@ -14,6 +14,7 @@ import GocoinV.Model.NetParseFacts
 import GocoinV.Model.NetParseLocks
 import GocoinV.Proofs.C18
 import GocoinV.Proofs.C18State
+import GocoinV.Proofs.C18Expire
 import GocoinV.Proofs.C09
 namespace GocoinV.Props.C18
 open GocoinV GocoinV.NetParse
@@ -249,7 +250,7 @@ theorem witnesses_now_rejected :
 
 /-- the source facts the model was WRITTEN AGAINST are the ones regenerated from the current source in this
     run: skeletons of the handlers repaired by C18's fixes, Run's command table and gate, Run's inline `authack` case.
-    (All 26 lists are compared in Model/NetParseFacts.lean, which this module imports.) A skeleton is, in source
+    (All 27 lists are compared in Model/NetParseFacts.lean, which this module imports.) A skeleton is, in source
     order and canonical spelling: every `if` / guard / `for` / switch condition, every index / slice on the peer's
     bytes, Lock / Unlock / return, decoder and penalty calls, and - since the second audit - every assignment to a
     local whose value reaches a guard, a loop condition or such an index (`asg:`: offset arithmetic, which result of
@@ -553,5 +554,55 @@ theorem block_front_facts_current :
 -- OPEN (not modelled): the send path (SendRawMsg ring buffer, overflow ban) and btc.BuildTxListExt's
 -- worker hand-over; both are covered by the differential run only (slow-reader stream; block bodies cut
 -- at every transaction boundary, run in a child process).
+
+/-! ### expire_misbehave (core.go), the once-a-second walk over the connection's penalty history
+    (Model/NetParseExpire.lean; not peer bytes, but the same thread: a panic here ends the connection thread) -/
+
+/-- NO INDEX OUT OF RANGE in expire_misbehave: for every clock value, every counter value and every history
+    (any length, any numbers in the records) the function of the source returns - none of
+    `c.misbehave_history[idx][0]`, `c.misbehave_history[idx][1]` after `idx++`, `c.misbehave_history[idx:]`
+    is out of range, and the loop ends within len(history) iterations. No hypotheses. -/
+theorem expire_total (now mis : Int) (hist : Expire.Hist) : Expire.expire now mis hist ≠ none := by
+  rcases Expire.expire_cases now mis hist with h | h | ⟨k, s, _, _, h⟩ <;> rw [h] <;> simp
+
+/-- the history after expire_misbehave is the history before with its first k records dropped (a suffix):
+    nothing is reordered, rewritten or added, so its length never grows. -/
+theorem expire_history_suffix (now mis mis' : Int) (hist hist' : Expire.Hist)
+    (h : Expire.expire now mis hist = some (mis', hist')) :
+    (∃ k, hist' = hist.drop k) ∧ hist'.length ≤ hist.length := by
+  have key : ∃ k, hist' = hist.drop k := by
+    rcases Expire.expire_cases now mis hist with e | e | ⟨k, s, _, _, e⟩ <;> rw [e] at h <;>
+      simp only [Option.some.injEq, Prod.mk.injEq] at h
+    · exact ⟨0, by rw [← h.2]; rfl⟩
+    · exact ⟨hist.length, by rw [← h.2]; simp⟩
+    · exact ⟨k, h.2.symm⟩
+  obtain ⟨k, hk⟩ := key
+  exact ⟨⟨k, hk⟩, by rw [hk, List.length_drop]; omega⟩
+
+/-- non-vacuity of `expire_history_suffix`: one record, one hour and a second later - everything is forgotten -/
+example : Expire.expire 1700003601 100 [(61696, 100)] = some (0, []) := by decide +kernel
+
+/-- what the order `sub += hist[idx][1]; idx++` IN FRONT OF the `idx+1 == len` test does (a seeded change of
+    round 5, `expireG true`): a history of exactly one record (time 1700000000, low 16 bits 61696), looked at
+    3601 s later, indexes misbehave_history[1] of a one-element slice - the loop ends in `panic`, where the
+    order of the source forgets the record and returns. -/
+theorem expire_moved_counterexample :
+    Expire.loopG true 1700003601 [(61696, 100)] 2 0 0 = .panic ∧
+    Expire.expireG true 1700003601 100 [(61696, 100)] = none ∧
+    Expire.expireG false 1700003601 100 [(61696, 100)] = some (0, []) := by decide +kernel
+
+/-- WHAT THE SOURCE DOES WITH THE WEIGHTS (a fact about the unchanged code, stated so that nobody reads the
+    model as "takes off the expired points"): `idx++` comes before `sub += …[idx][1]`, so the amount taken off
+    is the weight of the records that STAY up to the first live one, not of the ones that go. Two penalties,
+    100 points at 1700000000 and 7 points at 1700003000, counter 107; at 1700003601 the first record is
+    dropped, 7 is subtracted, and the counter stays at 100 with one live record of 7 points. -/
+theorem expire_forgets_next_weight_counterexample :
+    Expire.expire 1700003601 107 [(61696, 100), (64696, 7)] = some (100, [(64696, 7)]) := by decide +kernel
+
+/-- the skeleton of expire_misbehave that Model/NetParseExpire.lean was written against (the guards, the
+    position of `idx++` against the `idx+1 == len` test, the reset to nil, the return) is the one regenerated
+    from core.go in this run. NOT pinned by the list: the `sub +=` statement (no guard reads `sub`) and the
+    final `c.misbehave -= sub` / re-slice; the harness family on the real function is the tie for those. -/
+theorem expire_facts_current : Gen.NetFacts.expire_misbehave = Expected.expire_misbehave := facts_expire_misbehave
 
 end GocoinV.Props.C18
